@@ -1106,6 +1106,7 @@ def r23_hashmap_into_iter(text, exprs):
     for e in exprs:
         pat = r"(\bfor\s+[^{;]*?\bin\s+)" + re.escape(e) + r"(\s*\{)"
         base = e[:-len(".into_iter()")] if e.endswith(".into_iter()") else e   # explicit `.into_iter()` = the same by-value iteration
+        pat = r"(\bfor\s+[^{;]*?\bin\s+)" + re.escape(base) + r"(?:\s*\.\s*into_iter\s*\(\s*\))?(\s*\{)"   # both spellings
         text, k = re.subn(pat, lambda mo: mo.group(1) + "verif_hashmap_into_entries(" + base + ")" + mo.group(2), text)
         n += k
     return text, n
